@@ -8,6 +8,7 @@ import Driver.SessionIO
 import KmipModel.Discover
 import KmipModel.Accept
 import KmipModel.Shutdown
+import KmipModel.Client
 /-
   kvdriver: one request per input line, one reply per output line.  Runs the executable model and the
   executable specifications on the inputs the Go harness also gives to the real code.
@@ -118,6 +119,26 @@ def runSchedule (acts : List Shutdown.Action) : Option (List Shutdown.State) :=
       | some σ' => some (acc ++ Shutdown.settle σ')
       | none => none) []) [Shutdown.init]
 
+def showSend : Client.SendResult → String
+  | .payload p => "payload " ++ showFV (.dyn p)
+  | .failure r m => s!"failure {r} " ++ (if m.isEmpty then "-" else toHex m)
+  | .error => "error"
+
+def isDVResponse : DynV → Bool
+  | .val false (.struct sd) _ => sd.name == "DiscoverVersionsResponse"
+  | _ => false
+
+def clientSend (op : Nat) (bs : Bytes) (dv : Bool) : String :=
+  match findSD "Response" with
+  | none => "bad-op"
+  | some sd =>
+    let reply : Option Client.RespView :=
+      match decodeSD sd bs with
+      | .ok (v, _, _) => Client.respView v
+      | _ => none
+    let r := Client.send true true op reply
+    showSend (if dv then Client.discoverVersions isDVResponse r else r)
+
 def step (line : String) : String :=
   match tokens line with
   -- enctop <FV tokens of a DynV>: Encoder.Encode(v)
@@ -183,6 +204,15 @@ def step (line : String) : String :=
       match runSchedule acts with
       | some states => "ok " ++ "|".intercalate ((states.map observeSd).eraseDups)
       | none => "invalid"
+    | none => "bad-op"
+  -- clientsend OP HEX / clientdv HEX: Client.Send / Client.DiscoverVersions given the bytes the peer replies with
+  | ["clientsend", op, hex] =>
+    match op.toNat?, fromHex hex with
+    | some o, some bs => clientSend o bs false
+    | _, _ => "bad-op"
+  | ["clientdv", hex] =>
+    match fromHex hex with
+    | some bs => clientSend 0x1E bs true
     | none => "bad-op"
   | ["c18"] => c18Report
   | ["c19"] => c19Report
